@@ -14,7 +14,7 @@ CONFIG = {
         "C05's frame lemmas (step_frame / history_frame): the persistent effects are the only writers of .DIR",
     ],
     "modelled": ["ptt.boardPermStat/boardPermStatNormally/IsBMCache (own copy of the read decision)", "ptt.postpermMsg/bannedMsg/hasPostPerm",
-                 "ptt.isBannedBy (ban file = its expiry time)", "ptt.getRestrictionReason/getBoardRestrictionReason/CheckPostRestriction",
+                 "ptt.isBannedBy / bakumanGetInfo (ban record = absent | unreadable | expiry; what the check leaves of it; clean-up condition regenerated)", "ptt.getRestrictionReason/getBoardRestrictionReason/CheckPostRestriction",
                  "ptt.checkCooldown, cache.CooldownTimeOf/PosttimesOf/AddCooldownTime/AddPosttimes", "ptt.isFileOwner, Filename_t.CreateTime",
                  "ptt.isReadonlyBoard, types.Cstrcmp/Cstrcasecmp (as equality of C strings / of their ASCII-lower-cased forms)",
                  "cache.HbflReload / IsHiddenBoardFriend over the shared-memory friend-list row (the list file is the uid each line resolves to; "
